@@ -329,7 +329,17 @@ def run_l1(ctx):
 
 
 # ---------------------------------------------------------------- L3
-def make_catalog(ctx, name, pts, w, z, centers, extra=None):
+def plain_dir(ctx, name):
+    """a scratch cache below a plainly named folder (lib.impl.fresh_dir varies the spelling of the parent folder; the
+    scenarios that vary the ignored columns keep that dimension fixed, the random ones do not)"""
+    import os
+    d = os.path.join(ctx.workdir, "c01ign", name)
+    shutil.rmtree(d, ignore_errors=True)
+    os.makedirs(os.path.dirname(d), exist_ok=True)
+    return d
+
+
+def make_catalog(ctx, name, pts, w, z, centers, extra=None, plain=False):
     cols = {"ra": [p[0] for p in pts], "dec": [p[1] for p in pts]}
     kw = dict(ra_name="ra", dec_name="dec", patch_centers=centers, max_workers=1)
     if w is not None:
@@ -339,7 +349,7 @@ def make_catalog(ctx, name, pts, w, z, centers, extra=None):
     for k, v in (extra or {}).items():    # further columns of the input table, never named to the library
         if k not in cols:
             cols[k] = v
-    return impl.Catalog.from_dataframe(impl.fresh_dir(ctx, name), impl.make_df(cols), **kw)
+    return impl.Catalog.from_dataframe((plain_dir if plain else impl.fresh_dir)(ctx, name), impl.make_df(cols), **kw)
 
 
 def cat_objects(cat, edges, closed):
@@ -580,7 +590,7 @@ def run_trees(ctx):
                     z = ign_redshifts(rng, prof, len(pts), edges, zvals, frac) if prof else None
                 ex = rng.choice([None, None] + EXTRA_PROFILES)
                 extra = ign_extra(rng, ex, len(pts), w is not None, z is not None) if ex else None
-                cats[name] = make_catalog(ctx, "t%d%s" % (k, name), pts, w, z, centers, extra=extra)
+                cats[name] = make_catalog(ctx, "t%d%s" % (k, name), pts, w, z, centers, extra=extra, plain=True)
                 cols[name] = (pts, w, z)
                 spec["cat_" + name] = dict(n=len(pts), weights=wmode, extra=ex)
         except Exception as e:
@@ -628,7 +638,8 @@ def run_trees(ctx):
             wres = rng.choice([3, 7, 50])
             got = t1.count(t2, np.asarray(amin), np.asarray(amax), weight_scale=ws, weight_res=wres)
             cfg, _ = make_cfg(np.asarray(amin), np.asarray(amax), ws, wres, K)
-            ctx.bump("IGN/tree-z:%s|%s" % (prof_c, prof_d or "-"))
+            ctx.bump("IGN/tree-z:first=%s" % prof_c)
+            ctx.bump("IGN/tree-z:second=%s" % (prof_d or "-"))
             tree_case(ctx, TC, entry, cid, edges, closed, iobj["c"], p, binC, iobj["d"], q, binD, cfg, t1, t2, got, dict(spec=spec))
             ctx.sample(dict(layer="L2T", spec=spec, got=[float(x) for x in got]), limit=5)
         except Exception as e:
@@ -815,7 +826,7 @@ def run_l3_case(ctx, spec, cid, terms, metas, cov, TC=None):
                           or (ones == "rand" and name in ("unk_rand", "ref_rand", "rand"))):
             w = [1.0] * len(pts)
         extra = ign_extra(irng, ign["extra"], len(pts), w is not None, z is not None) if ign.get("extra") else None
-        cats[name] = make_catalog(ctx, name, pts, w, z, given(), extra=extra)
+        cats[name] = make_catalog(ctx, name, pts, w, z, given(), extra=extra, plain=bool(spec.get("plain_dirs")))
         inputs[name] = (pts, w, z, extra)
         if ign:
             ctx.bump("IGN/z:%s/%s" % ("binned" if binned else "unbinned", (ign.get("ref_out") if binned else prof) or "-"))
@@ -1006,7 +1017,8 @@ def run_l3_case(ctx, spec, cid, terms, metas, cov, TC=None):
                 tw[name] = (pts_in, w2, z2, e2)
             if not changed:
                 continue
-            tcat = {name: make_catalog(ctx, name + "_twin", pts_in, w2, z2, cats[name], extra=e2) for name, (pts_in, w2, z2, e2) in tw.items()}
+            tcat = {name: make_catalog(ctx, name + "_twin", pts_in, w2, z2, cats[name], extra=e2, plain=True)
+                    for name, (pts_in, w2, z2, e2) in tw.items()}
             try:
                 if spec["auto"]:
                     res2 = yaw.autocorrelate(cfg, tcat["data"], tcat["rand"], count_rr=spec["count_rr"], max_workers=1)
@@ -1249,7 +1261,7 @@ def run_l3(ctx, TC=None):
             s = l3_spec(prng, "plain")
             s.update(auto=auto, rweight=None, prior=(rep == 1), nbins=irng0.choice([1, 2]), npatch=irng0.choice([2, 3]), zmin=0.2, zmax=0.6,
                      spacing_f=irng0.choice([0.8, 1.5]), unit=irng0.choice(["arcmin", "deg", "rad"]), cosmo=None, spreads=(0.3, 0.3),
-                     sizes=(12, 12), count_rr=True, rands="both", flavour="ignored", ign=dict(ig), workers=irng0.choice([1, 1, 2]))
+                     sizes=(12, 12), count_rr=True, rands="both", flavour="ignored", ign=dict(ig), workers=irng0.choice([1, 1, 2]), plain_dirs=True)
             if ctx.quick() and not auto and len(specs) % 2:
                 s["rands"] = "unk"      # DD and DR: the unknown sample and its randoms (quick tier: half of the probes)
             specs.append(s)
